@@ -1,5 +1,6 @@
 import DryocVerif.Proofs.SecretBox
 import DryocVerif.Proofs.Inst
+import DryocVerif.Proofs.SecretBoxExtra
 import DryocVerif.Spec.NaCl
 /-
 C01 — secretbox / box / sealed box: every open ∘ seal pairing is the identity, all API forms
@@ -10,6 +11,8 @@ All theorems hold for every instantiation `P : Prims` of the primitives; the onl
 caller-provided buffers, and — only where two different key pairs meet — the explicit
 Diffie-Hellman agreement `P.dh ssk rpk = P.dh rsk spk`.
 Helper lemmas live in `DryocVerif/Proofs/SecretBox.lean`.
+Section 7 states model = NaCl specification (sealing and opening) for `Model.boxPrims`, the instance the
+driver runs (helper lemmas in `DryocVerif/Proofs/SecretBoxExtra.lean`).
 -/
 namespace DryocVerif.Properties.C01
 open DryocVerif DryocVerif.Model.SecretBox
@@ -685,5 +688,324 @@ theorem concrete_nonce_needed :
   simp [zeros]
 
 end Concrete
+
+/-! ## 7. the model **as the driver runs it** (`Model.boxPrims`, authenticator = dryoc's Poly1305 limb
+model) is the NaCl construction
+
+Section 4 is stated for `specPrims` (authenticator `Spec.Poly1305.mac`); the differential test and the
+`*_concrete` theorems use `Model.boxPrims` (authenticator `Model.Poly1305.mac`).  The two authenticators
+agree on 32-byte keys (`Proofs.Poly1305.mac_model_eq_spec`), and the one-time key — the first 32 bytes
+of the XSalsa20 key stream — has 32 bytes for EVERY key and EVERY nonce (even a nonce shorter than 24
+bytes: every Salsa20 block of the executable spec has at least 56 bytes).  Hence all theorems of this
+section hold without any hypothesis on key or nonce; the only hypotheses are buffer sizes. -/
+
+section ConcreteSpec
+open DryocVerif.Model (boxPrims)
+open DryocVerif.Proofs
+
+/-- **Prefix law of the key stream**: for a 24-byte nonce, asking the XSalsa20 stream for more bytes only
+appends bytes.  (In Rust: encrypting a longer message under the same key and nonce uses the same key
+stream prefix; in particular the one-time Poly1305 key is the same.) -/
+theorem boxPrims_stream_prefix (k n : Bytes) (hn : 24 ≤ n.length) (l l' : Nat) (h : l ≤ l') :
+    (boxPrims.stream k n l').take l = boxPrims.stream k n l :=
+  SecretBoxExtra.boxPrims_stream_prefix k n hn l l' h
+
+/-- the prefix law up to 56 bytes needs no hypothesis on the nonce -/
+theorem boxPrims_stream_prefix_short (k n : Bytes) (l l' : Nat) (h : l ≤ l') (h56 : l ≤ 56) :
+    (boxPrims.stream k n l').take l = boxPrims.stream k n l :=
+  SecretBoxExtra.boxPrims_stream_prefix_short k n l l' h h56
+
+/-- the nonce-length hypothesis of `boxPrims_stream_prefix` cannot be dropped beyond 56 bytes -/
+theorem boxPrims_stream_prefix_needs_nonce :
+    (boxPrims.stream [] [] 128).take 64 ≠ boxPrims.stream [] [] 64 :=
+  SecretBoxExtra.boxPrims_stream_prefix_needs_nonce
+
+/-- **The one-time Poly1305 key does not depend on the message length**: it is the 32-byte key stream
+(every key, every nonce). -/
+theorem boxPrims_mackey (k n : Bytes) (l : Nat) :
+    (boxPrims.stream k n (32 + l)).take 32 = boxPrims.stream k n 32 ∧
+      (boxPrims.stream k n 32).length = 32 :=
+  ⟨SecretBoxExtra.boxPrims_mackey k n l, SecretBoxExtra.boxPrims_mackey_length k n⟩
+
+theorem boxPrims_mackey_indep (k n : Bytes) (l l' : Nat) :
+    (boxPrims.stream k n (32 + l)).take 32 = (boxPrims.stream k n (32 + l')).take 32 :=
+  SecretBoxExtra.boxPrims_mackey_indep k n l l'
+
+/-- on the one-time key dryoc's Poly1305 limb model is RFC 8439 Poly1305 (every key, nonce, length) -/
+theorem boxPrims_mac_eq_spec (k n : Bytes) (l : Nat) (msg : Bytes) :
+    boxPrims.mac ((boxPrims.stream k n (32 + l)).take 32) msg
+      = Spec.Poly1305.mac ((Spec.Salsa20.xsalsa20Stream k n 0 (32 + l)).take 32) msg :=
+  SecretBoxExtra.boxPrims_mac_eq_spec k n l msg
+
+/-! ### sealing -/
+
+/-- `crypto_secretbox_easy`, as run by the driver, writes exactly NaCl's `secretbox(k, n, m)` for every
+key, nonce, message and every correctly sized caller buffer. -/
+theorem model_eq_spec_easy_boxPrims (ct0 m n k : Bytes) (h : ct0.length = m.length + 16) :
+    easy boxPrims ct0 m n k = .ok (Spec.NaCl.secretbox k n m) :=
+  SecretBoxExtra.easy_boxPrims ct0 m n k h
+
+/-- `crypto_secretbox_easy_inplace` on `m ‖ t` (16 spare bytes) gives NaCl's secretbox -/
+theorem model_eq_spec_easyInplace_boxPrims (m t n k : Bytes) (ht : t.length = 16) :
+    easyInplace boxPrims (m ++ t) n k = .ok (Spec.NaCl.secretbox k n m) :=
+  SecretBoxExtra.easyInplace_boxPrims m t n k ht
+
+/-- `crypto_secretbox_detached` returns the two parts of NaCl's secretbox: ciphertext = bytes 16…,
+authenticator = bytes 0…16 -/
+theorem model_eq_spec_detached_boxPrims (ct0 m n k : Bytes) (h : ct0.length = m.length) :
+    detached boxPrims ct0 m n k
+      = .ok ((Spec.NaCl.secretbox k n m).drop 16, (Spec.NaCl.secretbox k n m).take 16) :=
+  SecretBoxExtra.detached_boxPrims ct0 m n k h
+
+theorem model_eq_spec_detachedInplace_boxPrims (m n k : Bytes) :
+    detachedInplace boxPrims m n k
+      = ((Spec.NaCl.secretbox k n m).drop 16, (Spec.NaCl.secretbox k n m).take 16) :=
+  SecretBoxExtra.detachedInplace_boxPrims m n k
+
+/-- `DryocSecretBox::encrypt` holds the two parts of NaCl's secretbox (so `to_bytes` is the secretbox) -/
+theorem model_eq_spec_objEncrypt_boxPrims (m n k : Bytes) :
+    ∃ b, objEncrypt boxPrims m n k = .ok b ∧ toBytes b = Spec.NaCl.secretbox k n m :=
+  ⟨_, SecretBoxExtra.objEncrypt_boxPrims m n k, List.take_append_drop 16 _⟩
+
+/-- `crypto_box_easy` = NaCl's `box` -/
+theorem model_eq_spec_boxEasy_boxPrims (ct0 m n pk sk : Bytes) (h : ct0.length = m.length + 16) :
+    boxEasy boxPrims ct0 m n pk sk = .ok (Spec.NaCl.box pk sk n m) :=
+  SecretBoxExtra.boxEasy_boxPrims ct0 m n pk sk h
+
+theorem model_eq_spec_boxEasyInplace_boxPrims (m t n pk sk : Bytes) (ht : t.length = 16) :
+    boxEasyInplace boxPrims (m ++ t) n pk sk = .ok (Spec.NaCl.box pk sk n m) :=
+  SecretBoxExtra.boxEasyInplace_boxPrims m t n pk sk ht
+
+theorem model_eq_spec_boxDetached_boxPrims (ct0 m n pk sk : Bytes) (h : ct0.length = m.length) :
+    boxDetached boxPrims ct0 m n pk sk
+      = .ok ((Spec.NaCl.box pk sk n m).drop 16, (Spec.NaCl.box pk sk n m).take 16) :=
+  SecretBoxExtra.boxDetached_boxPrims ct0 m n pk sk h
+
+/-- `crypto_box_seal` with ephemeral secret `esk` = libsodium's sealed box
+`epk ‖ box(m, nonce = BLAKE2b-24(epk ‖ rpk), rpk, esk)` -/
+theorem model_eq_spec_boxSeal_boxPrims (ct0 m rpk esk : Bytes) (h : ct0.length = m.length + 48) :
+    boxSeal boxPrims ct0 m rpk esk = .ok (Spec.NaCl.boxSeal rpk esk m) :=
+  SecretBoxExtra.boxSeal_boxPrims ct0 m rpk esk h
+
+/-- `DryocBox::seal(...).to_vec()` = libsodium's sealed box -/
+theorem model_eq_spec_objSeal_boxPrims (m rpk esk : Bytes) :
+    ∃ b, objSeal boxPrims m rpk esk = .ok b ∧ toBytes b = Spec.NaCl.boxSeal rpk esk m :=
+  SecretBoxExtra.objSeal_boxPrims m rpk esk
+
+/-- the derived nonce of a sealed box always has its 24 bytes -/
+theorem sealNonce_boxPrims_length (epk rpk : Bytes) : (sealNonce boxPrims epk rpk).length = 24 :=
+  SecretBoxExtra.sealNonce_boxPrims_length epk rpk
+
+/-! ### opening: the model's decision against the specification's, for EVERY input -/
+
+/-- **Complete decision of `crypto_secretbox_open_easy`** (driver's primitives) in terms of NaCl's
+`secretbox_open`: slice panic iff the box is at least 16 bytes and the message buffer is too small;
+otherwise `Ok` with the specification's plaintext in front of the untouched rest of the buffer iff the
+specification opens the box, `Err` with the buffer unchanged iff it does not. -/
+theorem model_eq_spec_openEasy_decision_boxPrims (buf ct n k : Bytes) :
+    openEasy boxPrims buf ct n k
+      = if 16 ≤ ct.length ∧ buf.length < ct.length - 16 then ⟨.panic, buf⟩
+        else match Spec.NaCl.secretboxOpen k n ct with
+          | some m => ⟨.ok (), m ++ buf.drop (ct.length - 16)⟩
+          | none => ⟨.err, buf⟩ :=
+  SecretBoxExtra.openEasy_boxPrims buf ct n k
+
+/-- with an exactly sized buffer: `Ok` with message `m` iff the specification opens to `m` -/
+theorem model_eq_spec_openEasy_boxPrims (buf ct n k m : Bytes) (hbuf : buf.length = ct.length - 16) :
+    openEasy boxPrims buf ct n k = ⟨.ok (), m⟩ ↔ Spec.NaCl.secretboxOpen k n ct = some m :=
+  SecretBoxExtra.openEasy_boxPrims_iff buf ct n k m hbuf
+
+/-- acceptance coincides with the specification's, no hypothesis at all -/
+theorem model_eq_spec_openEasy_accepts_boxPrims (buf ct n k : Bytes) :
+    (openEasy boxPrims buf ct n k).res = .ok () ↔
+      ct.length - 16 ≤ buf.length ∧ (Spec.NaCl.secretboxOpen k n ct).isSome :=
+  SecretBoxExtra.openEasy_boxPrims_accepts_iff buf ct n k
+
+/-- rejection coincides with the specification's -/
+theorem model_eq_spec_openEasy_rejects_boxPrims (buf ct n k : Bytes) :
+    (openEasy boxPrims buf ct n k).res = .err ↔
+      (ct.length < 16 ∨ ct.length - 16 ≤ buf.length) ∧ Spec.NaCl.secretboxOpen k n ct = none :=
+  SecretBoxExtra.openEasy_boxPrims_err_iff buf ct n k
+
+/-- `crypto_secretbox_open_easy_inplace`: `Ok` with `plaintext ‖ tag` iff the specification opens -/
+theorem model_eq_spec_openEasyInplace_boxPrims (ct n k : Bytes) :
+    openEasyInplace boxPrims ct n k
+      = match Spec.NaCl.secretboxOpen k n ct with
+        | some m => ⟨.ok (), m ++ ct.take 16⟩
+        | none => ⟨.err, ct⟩ :=
+  SecretBoxExtra.openEasyInplace_boxPrims ct n k
+
+/-- `crypto_secretbox_open_detached` decides like NaCl's `secretbox_open` on `tag ‖ c` (the Rust type of
+the authenticator is `[u8; 16]`) -/
+theorem model_eq_spec_openDetached_boxPrims (buf tag c n k : Bytes) (ht : tag.length = 16) :
+    openDetached boxPrims buf tag c n k
+      = if buf.length < c.length then ⟨.panic, buf⟩
+        else match Spec.NaCl.secretboxOpen k n (tag ++ c) with
+          | some m => ⟨.ok (), m ++ buf.drop c.length⟩
+          | none => ⟨.err, buf⟩ :=
+  SecretBoxExtra.openDetached_boxPrims buf tag c n k ht
+
+theorem model_eq_spec_openDetachedInplace_boxPrims (d tag n k : Bytes) (ht : tag.length = 16) :
+    openDetachedInplace boxPrims d tag n k
+      = match Spec.NaCl.secretboxOpen k n (tag ++ d) with
+        | some m => ⟨.ok (), m⟩
+        | none => ⟨.err, d⟩ :=
+  SecretBoxExtra.openDetachedInplace_boxPrims d tag n k ht
+
+/-- `DryocSecretBox::decrypt` = NaCl's `secretbox_open` on `tag ‖ data` -/
+theorem model_eq_spec_objDecrypt_boxPrims (b : Box) (n k : Bytes) (ht : b.tag.length = 16) :
+    objDecrypt boxPrims b n k
+      = match Spec.NaCl.secretboxOpen k n (b.tag ++ b.data) with
+        | some m => .ok m
+        | none => .err :=
+  SecretBoxExtra.objDecrypt_boxPrims b n k ht
+
+/-- complete decision of `crypto_box_open_easy` against NaCl's `box_open` -/
+theorem model_eq_spec_boxOpenEasy_decision_boxPrims (buf ct n pk sk : Bytes) :
+    boxOpenEasy boxPrims buf ct n pk sk
+      = if 16 ≤ ct.length ∧ buf.length < ct.length - 16 then ⟨.panic, buf⟩
+        else match Spec.NaCl.boxOpen pk sk n ct with
+          | some m => ⟨.ok (), m ++ buf.drop (ct.length - 16)⟩
+          | none => ⟨.err, buf⟩ :=
+  SecretBoxExtra.boxOpenEasy_boxPrims buf ct n pk sk
+
+theorem model_eq_spec_boxOpenEasy_boxPrims (buf ct n pk sk m : Bytes) (hbuf : buf.length = ct.length - 16) :
+    boxOpenEasy boxPrims buf ct n pk sk = ⟨.ok (), m⟩ ↔ Spec.NaCl.boxOpen pk sk n ct = some m :=
+  SecretBoxExtra.boxOpenEasy_boxPrims_iff buf ct n pk sk m hbuf
+
+theorem model_eq_spec_boxOpenEasy_accepts_boxPrims (buf ct n pk sk : Bytes) :
+    (boxOpenEasy boxPrims buf ct n pk sk).res = .ok () ↔
+      ct.length - 16 ≤ buf.length ∧ (Spec.NaCl.boxOpen pk sk n ct).isSome :=
+  SecretBoxExtra.boxOpenEasy_boxPrims_accepts_iff buf ct n pk sk
+
+theorem model_eq_spec_boxOpenEasyInplace_boxPrims (ct n pk sk : Bytes) :
+    boxOpenEasyInplace boxPrims ct n pk sk
+      = match Spec.NaCl.boxOpen pk sk n ct with
+        | some m => ⟨.ok (), m ++ ct.take 16⟩
+        | none => ⟨.err, ct⟩ :=
+  SecretBoxExtra.boxOpenEasyInplace_boxPrims ct n pk sk
+
+theorem model_eq_spec_boxOpenDetached_boxPrims (buf tag c n pk sk : Bytes) (ht : tag.length = 16) :
+    boxOpenDetached boxPrims buf tag c n pk sk
+      = if buf.length < c.length then ⟨.panic, buf⟩
+        else match Spec.NaCl.boxOpen pk sk n (tag ++ c) with
+          | some m => ⟨.ok (), m ++ buf.drop c.length⟩
+          | none => ⟨.err, buf⟩ :=
+  SecretBoxExtra.boxOpenDetached_boxPrims buf tag c n pk sk ht
+
+theorem model_eq_spec_objBoxDecrypt_boxPrims (b : Box) (n pk sk : Bytes) (ht : b.tag.length = 16) :
+    objBoxDecrypt boxPrims b n pk sk
+      = match Spec.NaCl.boxOpen pk sk n (b.tag ++ b.data) with
+        | some m => .ok m
+        | none => .err :=
+  SecretBoxExtra.objBoxDecrypt_boxPrims b n pk sk ht
+
+/-- **Complete decision of `crypto_box_seal_open`** against libsodium's sealed-box opening: `Err` if the
+message buffer does not have exactly the plaintext length, otherwise `Ok` with the specification's
+plaintext iff the specification opens the sealed box (never a panic). -/
+theorem model_eq_spec_sealOpen_decision_boxPrims (buf ct rpk rsk : Bytes) :
+    sealOpen boxPrims buf ct rpk rsk
+      = if buf.length ≠ ct.length - 48 then ⟨.err, buf⟩
+        else match Spec.NaCl.sealOpen rpk rsk ct with
+          | some m => ⟨.ok (), m⟩
+          | none => ⟨.err, buf⟩ :=
+  SecretBoxExtra.sealOpen_boxPrims buf ct rpk rsk
+
+theorem model_eq_spec_sealOpen_boxPrims (buf ct rpk rsk m : Bytes) :
+    sealOpen boxPrims buf ct rpk rsk = ⟨.ok (), m⟩ ↔
+      buf.length = ct.length - 48 ∧ Spec.NaCl.sealOpen rpk rsk ct = some m :=
+  SecretBoxExtra.sealOpen_boxPrims_iff buf ct rpk rsk m
+
+theorem model_eq_spec_sealOpen_accepts_boxPrims (buf ct rpk rsk : Bytes) :
+    (sealOpen boxPrims buf ct rpk rsk).res = .ok () ↔
+      buf.length = ct.length - 48 ∧ (Spec.NaCl.sealOpen rpk rsk ct).isSome :=
+  SecretBoxExtra.sealOpen_boxPrims_accepts_iff buf ct rpk rsk
+
+/-- `DryocBox::unseal` = libsodium's sealed-box opening of `to_vec()` (32-byte ephemeral key and 16-byte
+tag are the Rust array types) -/
+theorem model_eq_spec_objUnseal_boxPrims (b : Box) (epk rpk rsk : Bytes) (he : b.epk = some epk)
+    (hel : epk.length = 32) (ht : b.tag.length = 16) :
+    objUnseal boxPrims b rpk rsk
+      = match Spec.NaCl.sealOpen rpk rsk (toBytes b) with
+        | some m => .ok m
+        | none => .err :=
+  SecretBoxExtra.objUnseal_boxPrims b epk rpk rsk he hel ht
+
+/-! ### non-vacuity witnesses (the only hypotheses are buffer sizes / array lengths) -/
+
+/-- non-vacuity witness: `model_eq_spec_easy_boxPrims`, `…_boxEasy_…`, `…_boxSeal_…` on a 3-byte message -/
+example : easy boxPrims (zeros 19) toyMsg (zeros 24) (zeros 32)
+    = .ok (Spec.NaCl.secretbox (zeros 32) (zeros 24) toyMsg) :=
+  model_eq_spec_easy_boxPrims _ _ _ _ rfl
+example : boxEasy boxPrims (zeros 19) toyMsg (zeros 24) (zeros 32) (zeros 32)
+    = .ok (Spec.NaCl.box (zeros 32) (zeros 32) (zeros 24) toyMsg) :=
+  model_eq_spec_boxEasy_boxPrims _ _ _ _ _ rfl
+example : boxSeal boxPrims (zeros 51) toyMsg (zeros 32) (zeros 32)
+    = .ok (Spec.NaCl.boxSeal (zeros 32) (zeros 32) toyMsg) :=
+  model_eq_spec_boxSeal_boxPrims _ _ _ _ rfl
+example : easyInplace boxPrims (toyMsg ++ zeros 16) (zeros 24) (zeros 32)
+    = .ok (Spec.NaCl.secretbox (zeros 32) (zeros 24) toyMsg) :=
+  model_eq_spec_easyInplace_boxPrims _ _ _ _ rfl
+example : detached boxPrims (zeros 3) toyMsg (zeros 24) (zeros 32)
+    = .ok ((Spec.NaCl.secretbox (zeros 32) (zeros 24) toyMsg).drop 16,
+           (Spec.NaCl.secretbox (zeros 32) (zeros 24) toyMsg).take 16) :=
+  model_eq_spec_detached_boxPrims _ _ _ _ rfl
+/-- non-vacuity witness: the opening theorems with an exactly sized buffer, a 16-byte tag, a 32-byte
+ephemeral key -/
+example (m : Bytes) : openEasy boxPrims (zeros 3) (zeros 19) (zeros 24) (zeros 32) = ⟨.ok (), m⟩ ↔
+    Spec.NaCl.secretboxOpen (zeros 32) (zeros 24) (zeros 19) = some m :=
+  model_eq_spec_openEasy_boxPrims _ _ _ _ m rfl
+example (m : Bytes) : boxOpenEasy boxPrims (zeros 3) (zeros 19) (zeros 24) (zeros 32) (zeros 32) = ⟨.ok (), m⟩ ↔
+    Spec.NaCl.boxOpen (zeros 32) (zeros 32) (zeros 24) (zeros 19) = some m :=
+  model_eq_spec_boxOpenEasy_boxPrims _ _ _ _ _ m rfl
+example : openDetached boxPrims (zeros 3) (zeros 16) toyMsg (zeros 24) (zeros 32)
+    = if (zeros 3).length < toyMsg.length then ⟨.panic, zeros 3⟩
+      else match Spec.NaCl.secretboxOpen (zeros 32) (zeros 24) (zeros 16 ++ toyMsg) with
+        | some m => ⟨.ok (), m ++ (zeros 3).drop toyMsg.length⟩
+        | none => ⟨.err, zeros 3⟩ :=
+  model_eq_spec_openDetached_boxPrims _ _ _ _ _ rfl
+example : objUnseal boxPrims ⟨some (zeros 32), zeros 16, toyMsg⟩ (zeros 32) (zeros 32)
+    = match Spec.NaCl.sealOpen (zeros 32) (zeros 32) (toBytes ⟨some (zeros 32), zeros 16, toyMsg⟩) with
+      | some m => .ok m
+      | none => .err :=
+  model_eq_spec_objUnseal_boxPrims _ (zeros 32) _ _ rfl rfl rfl
+/-- non-vacuity witness: the prefix law at a 24-byte nonce -/
+example : (boxPrims.stream toyKey (zeros 24) 100).take 35 = boxPrims.stream toyKey (zeros 24) 35 :=
+  boxPrims_stream_prefix _ _ (by decide) 35 100 (by decide)
+
+/-! ### the Diffie-Hellman hypothesis of `box_roundtrip_dh_concrete` is satisfiable for the real X25519 -/
+
+/-- RFC 7748 §6.1: Alice's and Bob's secret keys -/
+def rfcAliceSk : Bytes :=
+  [0x77, 0x07, 0x6d, 0x0a, 0x73, 0x18, 0xa5, 0x7d, 0x3c, 0x16, 0xc1, 0x72, 0x51, 0xb2, 0x66, 0x45,
+   0xdf, 0x4c, 0x2f, 0x87, 0xeb, 0xc0, 0x99, 0x2a, 0xb1, 0x77, 0xfb, 0xa5, 0x1d, 0xb9, 0x2c, 0x2a]
+def rfcBobSk : Bytes :=
+  [0x5d, 0xab, 0x08, 0x7e, 0x62, 0x4a, 0x8a, 0x4b, 0x79, 0xe1, 0x7f, 0x8b, 0x83, 0x80, 0x0e, 0xe6,
+   0x6f, 0x3b, 0xb1, 0x29, 0x26, 0x18, 0xb6, 0xfd, 0x1c, 0x2f, 0x8b, 0x27, 0xff, 0x88, 0xe0, 0xeb]
+/-- RFC 7748 §6.1: their shared secret -/
+def rfcShared : Bytes :=
+  [0x4a, 0x5d, 0x9d, 0x5b, 0xa4, 0xce, 0x2d, 0xe1, 0x72, 0x8e, 0x3b, 0xf4, 0x80, 0x35, 0x0f, 0x25,
+   0xe0, 0x7e, 0x21, 0xc9, 0x47, 0xd1, 0x9e, 0x33, 0x76, 0xf0, 0x9b, 0x3c, 0x1e, 0x16, 0x17, 0x42]
+
+/-- the two X25519 shared secrets of the RFC 7748 §6.1 key pairs agree (and are the RFC's value):
+`hdh` of `box_roundtrip_dh_concrete` holds for two different, real key pairs (kernel evaluation of the
+executable spec: four Montgomery ladders) -/
+theorem x25519_dh_agreement_rfc :
+    Spec.X25519.x25519 rfcAliceSk (Spec.X25519.x25519Base rfcBobSk)
+      = Spec.X25519.x25519 rfcBobSk (Spec.X25519.x25519Base rfcAliceSk) ∧
+    Spec.X25519.x25519 rfcAliceSk (Spec.X25519.x25519Base rfcBobSk) = rfcShared := by
+  set_option maxRecDepth 100000 in decide +kernel
+
+/-- non-vacuity witness for `box_roundtrip_dh_concrete`: Alice seals to Bob's public key, Bob opens from
+Alice's public key, with the real X25519 / HSalsa20 / XSalsa20 / Poly1305 -/
+example : ∃ ct, boxEasy boxPrims (zeros (toyMsg.length + 16)) toyMsg (zeros 24)
+      (Spec.X25519.x25519Base rfcBobSk) rfcAliceSk = .ok ct ∧
+    boxOpenEasy boxPrims (zeros 3) ct (zeros 24) (Spec.X25519.x25519Base rfcAliceSk) rfcBobSk
+      = ⟨.ok (), toyMsg⟩ :=
+  box_roundtrip_dh_concrete (Spec.X25519.x25519Base rfcAliceSk) rfcAliceSk
+    (Spec.X25519.x25519Base rfcBobSk) rfcBobSk (zeros 24) toyMsg (zeros 3) (by decide) rfl
+    x25519_dh_agreement_rfc.1
+
+end ConcreteSpec
 
 end DryocVerif.Properties.C01
